@@ -20,11 +20,13 @@ from hypothesis import strategies as st
 
 ATTRS = ('pub', 'sec', 'num', 'meth', 'child', 'kids', '_prv', '_kid')
 PLAIN = ('pub', 'sec', 'num')
-ROLES = ('o', 's', 'lst', 'child', 'kids')
+ROLES = ('o', 's', 'lst', 'child', 'kids', 'it', 'gv', 'dv')
 
 
 class GP:
     """Node of the object graph.  Attribute values are set by build()."""
+
+    item_refused = False     # the guard refuses to hand out this item
 
     def __init__(self, role, idx, path):
         self.role, self.idx, self.path = role, idx, path
@@ -95,8 +97,9 @@ def build(policy, run, depth=2):
             return 10 + len(obj_path)
         return 'OK-%s.%s' % (obj_path, name)
 
-    def node(role, idx, path, ghost, d):
+    def node(role, idx, path, ghost, d, refused=False):
         n = GP(role, idx, path)
+        n.item_refused = refused
 
         def hid(name):
             return ghost or attr_denied(policy, role, idx, name)
@@ -111,18 +114,23 @@ def build(policy, run, depth=2):
             kg = hid('kids')
             n.kids = GSeq('kids', path + '.kids', [
                 node('kids', j, '%s.kids[%d]' % (path, j),
-                     kg or item_denied(policy, 'kids', j), d - 1)
+                     kg or item_denied(policy, 'kids', j), d - 1,
+                     item_denied(policy, 'kids', j))
                 for j in range(2)])
         return n
 
     o = node('o', 0, 'o', False, depth)
-    s = GSeq('s', 's', [node('s', i, 's[%d]' % i,
-                             item_denied(policy, 's', i), depth - 1)
-                        for i in range(3)])
-    lst = GList(node('lst', i, 'lst[%d]' % i,
-                     item_denied(policy, 'lst', i), depth - 1)
-                for i in range(3))
-    return dict(o=o, s=s, lst=lst)
+    def items(role, n=3):
+        return [node(role, i, '%s[%d]' % (role, i),
+                     item_denied(policy, role, i), depth - 1,
+                     item_denied(policy, role, i)) for i in range(n)]
+    s = GSeq('s', 's', items('s'))
+    lst = GList(items('lst'))
+    # lazily produced sequences (one-shot: the graph is built per rendering)
+    it = iter(items('it'))
+    gv = (x for x in items('gv'))
+    dv = dict(zip('abc', items('dv'))).values()
+    return dict(o=o, s=s, lst=lst, it=it, gv=gv, dv=dv)
 
 
 _CLS = {}
@@ -158,13 +166,15 @@ def guarded_class():
             return v
 
         def guarded_getitem(self, ob, index):
-            role = getattr(ob, 'role', None)
-            if role is not None and isinstance(index, int) and \
-                    item_denied(self.policy, role, index):
+            # like AccessControl, the decision is about the value handed out
+            v = ob[index]
+            if getattr(v, 'item_refused', False) and (
+                    isinstance(v, GP) and item_denied(self.policy, v.role,
+                                                      v.idx)):
                 if self.stats is not None:
                     self.stats['refused'] += 1
                 raise Unauthorized('item %r' % (index,))
-            return ob[index]
+            return v
 
     _CLS['G'] = Guarded
     return Guarded
@@ -268,12 +278,18 @@ def block(draw, scope, depth):
         sc = _sub(scope, pushed=True)
         if only:
             # nothing of the outer namespace is visible inside 'only'
-            sc = dict(refs=[], seqs=[], pushed=True, in_item=False, names=[])
+            sc = dict(refs=[], seqs=[], pushed=True, in_item=False, names=[],
+                      top_iters=False)
         return '<dtml-with "%s"%s>%s</dtml-with>' % (
             r, only, draw(body(sc, inner)))
     if k == 1:
         sq = draw(seqref(scope))
+        if scope.get('top_iters') and draw(st.integers(0, 3)) == 0:
+            sq = draw(st.sampled_from(['it', 'gv', 'dv']))
         opts = ''
+        if draw(st.integers(0, 5)) == 0:
+            opts += draw(st.sampled_from([' reverse', ' reverse_expr="1"',
+                                          ' reverse_expr="0"']))
         if draw(st.booleans()):
             opts += ' skip_unauthorized'
         if draw(st.integers(0, 3)) == 0:
@@ -343,7 +359,8 @@ def body(draw, scope, depth):
 
 
 TOP = dict(refs=['o', 's[0]', 's[1]', 's[2]', 'lst[0]', 'lst[1]', 'lst[2]'],
-           seqs=['s', 'lst'], pushed=False, in_item=False, names=[])
+           seqs=['s', 'lst'], pushed=False, in_item=False, names=[],
+           top_iters=True)
 
 
 @st.composite
@@ -353,7 +370,7 @@ def policy(draw):
         st.sampled_from(('pub', 'sec', 'sec', 'num', 'meth', 'child',
                          'kids'))), min_size=0, max_size=4))
     item = draw(st.lists(st.tuples(
-        st.sampled_from(('*', 's', 'lst', 'kids')),
+        st.sampled_from(('*', 's', 'lst', 'kids', 'it', 'gv', 'dv')),
         st.sampled_from(('*', 0, 1, 2))), min_size=0, max_size=2))
     # refusing everything everywhere makes every rendering fail at once
     attr = [list(a) for a in attr if not (a[0] == '*' and a[1] == '*' and
@@ -376,26 +393,31 @@ def case(draw):
         c['sub'] = draw(st.sampled_from(['guarded', 'plain']))
     if draw(st.integers(0, 5)) == 0:
         c['plain_first'] = True
+    if c.get('sub') and draw(st.booleans()):
+        # the sub-template object is shared: it was rendered before from a
+        # template whose guard refuses nothing
+        c['shared'] = True
     return c
 
 
-def render(c, run, stats=None):
+def render(c, run, stats=None, shared=None, policy=None):
     from DocumentTemplate import HTML
     G = guarded_class()
-    ns = build(c['policy'], run)
+    policy = c['policy'] if policy is None else policy
+    ns = build(policy, run)
     src = c['src']
     if c.get('plain_first'):
         ns['psub'] = HTML('p')
         src = '<dtml-var psub>' + src
     if c.get('sub'):
         cls = G if c['sub'] == 'guarded' else HTML
-        sub = cls(src)
+        sub = shared if shared is not None else cls(src)
         if cls is G:
-            sub.policy, sub.stats = c['policy'], stats
+            sub.policy, sub.stats = policy, stats
         ns['subt'] = sub
         src = '[<dtml-var subt>]'
     t = G(src)
-    t.policy, t.stats = c['policy'], stats
+    t.policy, t.stats = policy, stats
     client = None
     if c.get('client') == 'o':
         client = ns['o']
@@ -411,8 +433,14 @@ def render(c, run, stats=None):
 def check(c):
     """-> (None | (bucket, msg), info)"""
     stats = dict(refused=0, granted=0)
-    a = render(c, 'A', stats)
-    b = render(c, 'B')
+    shared = None
+    if c.get('shared') and c.get('sub'):
+        from DocumentTemplate import HTML
+        shared = (guarded_class() if c['sub'] == 'guarded' else HTML)(
+            c['src'])
+        render(c, 'W', None, shared, policy=dict(attr=[], item=[]))
+    a = render(c, 'A', stats, shared)
+    b = render(c, 'B', None, shared)
     info = dict(stats, outcome=a[0], ok='OK-' in a[1] if a[0] == 'text'
                 else False)
     for out in (a, b):
